@@ -18,7 +18,7 @@ instance : DecidablePred CleanOp := fun op => by
 def KindOK (sp : Spec) : Op → Bool
   | .cns id | .reg id _ => noTableLevels sp [] id.dropLast
   | .dns id | .ens id => sp.get id ≠ some .tbl
-  | .et id => sp.get id ≠ some .ns
+  | .et id | .ct id => sp.get id ≠ some .ns
   | _ => true
 
 theorem R.of_rows {st st' : St} {sp : Spec} (h : R st sp) (hr : st'.rows = st.rows) : R st' sp :=
@@ -105,7 +105,7 @@ theorem R.reg (id : Key) (loc : Name) (hid : id = [] ∨ CleanKey id) (hk : noTa
     · simp only [hloc, Bool.not_false, if_true]
       exact ⟨by first | rfl | trivial, h⟩
 
-theorem R.ct (id : Key) (hid : id = [] ∨ CleanKey id) :
+theorem R.ct (id : Key) (hid : id = [] ∨ CleanKey id) (hk : sp.get id ≠ some .ns) :
     Out.res (mCreateTable false st id).2 = (sp.step (.ct id)).2 ∧
       R (mCreateTable false st id).1 (sp.step (.ct id)).1 := by
   unfold mCreateTable
@@ -124,9 +124,9 @@ theorem R.ct (id : Key) (hid : id = [] ∨ CleanKey id) :
       have h1 : R (addDir st (encDir (tableDir false id))) sp := h.of_rows (addDir_rows _ _)
       cases hg : sp.get id with
       | some t =>
-        simp only [Option.isSome_some, if_true]
-        rw [h1.insertRow_some hid (by rw [hg]; rfl)]
-        exact ⟨by first | rfl | trivial, h1⟩
+        cases t with
+        | ns => exact absurd hg hk
+        | tbl => exact absurd (hiff.mpr hg) (by simp)
       | none =>
         obtain ⟨st', h2, h3⟩ := h1.insertRow_none hid hg .tbl (tableDir false id)
         simp only [Option.isSome_none, Bool.false_eq_true, if_false, h2]
@@ -247,7 +247,7 @@ theorem R.step (op : Op) (hc : CleanOp op) (hk : KindOK sp op = true) :
   | dns id => have := h.dns id hc (by simpa [KindOK] using hk); exact ⟨norm_of_eq this.1, this.2⟩
   | ens id => exact ⟨norm_of_eq (h.ens id hc (by simpa [KindOK] using hk)), h⟩
   | desns id => exact ⟨norm_of_eq (h.desns id hc), h⟩
-  | ct id => have := h.ct id hc; exact ⟨norm_of_eq this.1, this.2⟩
+  | ct id => have := h.ct id hc (by simpa [KindOK] using hk); exact ⟨norm_of_eq this.1, this.2⟩
   | reg id loc => have := h.reg id loc hc hk; exact ⟨norm_of_eq this.1, this.2⟩
   | dereg id => have := h.dereg id hc; exact ⟨norm_of_eq this.1, this.2⟩
   | dt id => exact h.dt id hc
